@@ -7,6 +7,7 @@ restarts user data is written; every restart must leave it exactly as it was.
 """
 
 import hashlib
+import os
 import random
 import urllib.parse
 from xml.etree import ElementTree as ET
@@ -367,3 +368,122 @@ class DiscoRun:
             if rs and tok is not None and rs[0].text(dav.P_SYNCTOKEN) != tok:
                 self.v("C18.collection-reinitialised-by-restart", "%s: sync-token of %s changed across %s (%s -> %s)" % (self.layout(), col, phase, tok, rs[0].text(dav.P_SYNCTOKEN)), step="restart")
         self.count("data_verified", len(self.data))
+
+
+class ThreadedCreateRun:
+    """A collection is being created (MKCALENDAR) while another request of the same process looks at
+    it and lists its home set - worker threads of a threaded WSGI deployment.  The creating thread
+    is parked at each of its file-system events in turn (depth-1 pre-emptions, enumerated); when
+    both are done the new collection must be what it is after a sequential execution."""
+
+    REL = "/user/calendars/fresh"
+
+    def __init__(self, seed, tier, tag, plan=None):
+        self.seed, self.tier, self.tag, self.plan = seed, tier, tag, plan
+        self.violations = []
+        self.stats = {}
+
+    def count(self, k, n=1):
+        self.stats[k] = self.stats.get(k, 0) + n
+
+    @staticmethod
+    def describe(r):
+        if r is None:
+            return ("absent",)
+        try:
+            return (type(r).__name__, tuple(sorted(r.resource_types)))
+        except Exception as e:  # noqa: BLE001
+            return (type(r).__name__, "error:" + type(e).__name__)
+
+    def fresh_backend(self, root):
+        from xandikos.web import XandikosBackend
+
+        from ..server import drop_store_cache
+
+        drop_store_cache()
+        b = XandikosBackend(root)
+        b._mark_as_principal("/user/")
+        return b
+
+    def fns(self, b):
+        from xandikos import caldav
+
+        rel = self.REL
+        seen = []
+
+        def create():
+            r = b.create_collection(rel)
+            r.set_resource_types([caldav.CALENDAR_RESOURCE_TYPE, "{DAV:}collection"])
+            return "created"
+
+        def look():
+            seen.append(self.describe(b.get_resource(rel)))
+            home = b.get_resource("/user/calendars")
+            seen.append(sorted(n for n, _ in home.members()) if home is not None else None)
+            return "looked"
+
+        return [create, look], seen
+
+    def run(self):
+        import shutil
+
+        from ..world import rmtree_real
+        from .sched import Scheduler
+
+        arena = Arena(self.tag)
+        try:
+            FS.reset()
+            pre = os.path.join(arena.path, "pre")
+            work = arena.root
+            from xandikos.web import XandikosBackend
+
+            XandikosBackend(pre).create_principal("/user/", create_defaults=True)
+            # sequential reference, and the number of yield points of the creation
+            rmtree_real(work)
+            shutil.copytree(pre, work, symlinks=True)
+            b = self.fresh_backend(work)
+            n_ev = [0]
+            FS.hook = lambda kind, paths, mut: n_ev.__setitem__(0, n_ev[0] + 1)
+            FS.active = True
+            fns, _ = self.fns(b)
+            fns[0]()
+            FS.active = False
+            FS.hook = None
+            want = self.describe(b.get_resource(self.REL))
+            total = n_ev[0]
+            ks = self.plan["ks"] if self.plan else list(range(1, total + 1))
+            if not self.plan and self.tier == "quick" and len(ks) > 40:
+                rr = random.Random(H("threadcreate", self.seed))
+                ks = sorted(rr.sample(ks, 40))
+            for k in ks:
+                rmtree_real(work)
+                shutil.copytree(pre, work, symlinks=True)
+                b = self.fresh_backend(work)
+                fns, seen = self.fns(b)
+                sch = Scheduler(2, ("forced", 0, k, [1]), random.Random(k))
+                FS.reset()
+                FS.hook = lambda kind, paths, mut: sch.yield_point(kind)
+                FS.active = True
+                try:
+                    res = sch.run(fns, 0)
+                finally:
+                    FS.active = False
+                    FS.hook = None
+                self.count("schedules")
+                self.count("fault.preemption", sch.switches_inside)
+                got = self.describe(b.get_resource(self.REL))
+                created = res[0] is not None and res[0][0] == "ok"
+                if created and got != want:
+                    self.violations.append({"prop": "C18", "oracle": "C18.collection-wrong-after-overlapping-create",
+                                            "sig": {"oracle": "C18.collection-wrong-after-overlapping-create", "got": got[0]}, "step": None,
+                                            "detail": "creating thread parked at its fs event %d/%d while another request looked at %s (it saw %s): afterwards the collection is %s, sequentially %s" % (
+                                                k, total, self.REL, seen[:1], got, want)})
+                    self.plan = {"ks": [k]}
+                    break
+            return {"violations": self.violations, "cfg": {"seed": self.seed, "threads": True, "ks": (self.plan or {}).get("ks")}, "ops": [], "plan": self.plan or {"ks": ks}, "engine": "disco-threads", "stats": self.stats,
+                    "digest": hashlib.sha256(repr(sorted(self.stats.items())).encode()).hexdigest(), "layout": [], "hops": 0, "samples": [],
+                    "world": {"virtual_s": 0.0, "nreq": 0}, "fs": {"bypass": len(FS.bypass), "bypass_sample": FS.bypass[:3]}}
+        finally:
+            FS.active = False
+            FS.hook = None
+            arena.destroy()
